@@ -194,3 +194,88 @@ def name_sources():
             out.append((f"gen/name_attr_{t}_{n}",
                         f"#[{t}(display = \"text {{}} {{}}\", {a}, bbbbbbbb, cccccccc, dddddddd)]\nstruct S;\n"))
     return out
+
+
+# one option at a time: every formatting option with its non-default values
+OPTION_SWEEP = [
+    ("indent_style", ["Visual"]), ("use_small_heuristics", ["Off", "Max"]), ("fn_call_width", [20]),
+    ("attr_fn_like_width", [20]), ("struct_lit_width", [0, 40]), ("struct_variant_width", [0]),
+    ("array_width", [20]), ("chain_width", [20]), ("single_line_if_else_max_width", [0]),
+    ("single_line_let_else_max_width", [0]), ("wrap_comments", [True]),
+    ("format_code_in_doc_comments", [True]), ("doc_comment_code_block_width", [40]),
+    ("comment_width", [40]), ("normalize_comments", [True]), ("normalize_doc_attributes", [True]),
+    ("format_strings", [True]), ("format_macro_matchers", [True]), ("format_macro_bodies", [False]),
+    ("hex_literal_case", ["Upper", "Lower"]),
+    ("float_literal_trailing_zero", ["Always", "IfNoPostfix", "Never"]),
+    ("empty_item_single_line", [False]), ("struct_lit_single_line", [False]),
+    ("fn_single_line", [True]), ("where_single_line", [True]), ("imports_indent", ["Visual"]),
+    ("imports_layout", ["Vertical", "Horizontal", "HorizontalVertical", "LimitedHorizontalVertical"]),
+    ("imports_granularity", ["Crate", "Module", "Item", "One"]),
+    ("group_imports", ["StdExternalCrate", "One"]), ("reorder_imports", [False]),
+    ("reorder_modules", [False]), ("reorder_impl_items", [True]),
+    ("type_punctuation_density", ["Compressed"]), ("space_before_colon", [True]),
+    ("space_after_colon", [False]), ("spaces_around_ranges", [True]), ("binop_separator", ["Back"]),
+    ("remove_nested_parens", [False]), ("combine_control_expr", [False]),
+    ("overflow_delimited_expr", [True]), ("struct_field_align_threshold", [20]),
+    ("enum_discrim_align_threshold", [20]), ("match_arm_blocks", [False]),
+    ("match_arm_leading_pipes", ["Always", "Preserve"]), ("match_arm_indent", [False]),
+    ("force_multiline_blocks", [True]), ("fn_params_layout", ["Compressed", "Vertical"]),
+    ("brace_style", ["AlwaysNextLine", "PreferSameLine"]),
+    ("control_brace_style", ["ClosingNextLine", "AlwaysNextLine"]), ("trailing_semicolon", [False]),
+    ("trailing_comma", ["Always", "Never"]), ("match_block_trailing_comma", [True]),
+    ("blank_lines_upper_bound", [0, 3]), ("blank_lines_lower_bound", [1]),
+    ("inline_attribute_width", [40]), ("merge_derives", [False]), ("use_try_shorthand", [True]),
+    ("use_field_init_shorthand", [True]), ("force_explicit_abi", [False]),
+    ("condense_wildcard_suffixes", [True]), ("hard_tabs", [True]), ("tab_spaces", [2, 8]),
+]
+# options whose purpose is to change tokens (C01 judges them with its own rules / not at all)
+TOKEN_CHANGING = {"use_try_shorthand", "condense_wildcard_suffixes", "merge_derives",
+                  "normalize_doc_attributes", "hex_literal_case", "float_literal_trailing_zero",
+                  "force_explicit_abi", "use_field_init_shorthand", "imports_granularity",
+                  "normalize_comments", "wrap_comments", "format_strings", "reorder_impl_items",
+                  "format_code_in_doc_comments"}
+
+
+def option_points(tier, seed, per_quick=4, per_thorough=30):
+    """One option at a time: -> list of (pid, name, text, opts).  The files of a pair
+    (option, value) are the first N in a ranking by a hash of (option, value, file); the quick
+    list is a prefix of the thorough one."""
+    files = [f for f in corpus() if len(f[1]) < 30000]
+    out = []
+    for opt, vals in OPTION_SWEEP:
+        for val in vals:
+            ranked = sorted(files, key=lambda f: core.fnv(f"{opt}={val}:{f[0]}".encode()))
+            n = per_thorough if tier == "thorough" else per_quick
+            for k, (name, text) in enumerate(ranked[:per_thorough]):
+                if k >= n and not (tier != "thorough" and
+                                   core.fnv(f"{seed}:{opt}:{name}".encode()) % 23 == 0):
+                    continue
+                se = STYLE_EDITIONS[core.fnv((opt + name).encode()) % 3]
+                v = val
+                out.append((f"{name}@w=100,se={se},opt.{opt}={val}", name, text,
+                            {"max_width": 100, "style_edition": se, opt: v}))
+    return out
+
+
+def dirty(text, seed):
+    """A token-preserving perturbation that ADDS what a formatter must remove: blanks at the end
+    of lines and on blank lines (outside string / comment context, as in relayout)."""
+    rng = random.Random(seed)
+    out = []
+    in_block = False
+    for ln in text.split("\n"):
+        s = ln
+        stripped = s.strip()
+        risky = in_block or '"' in s or "/*" in s or "*/" in s or stripped.startswith("//") \
+            or "r#" in s or "\\" in s or "//" in s
+        if "/*" in s and "*/" not in s[s.index("/*"):]:
+            in_block = True
+        elif "*/" in s:
+            in_block = False
+        if not risky:
+            if not stripped:
+                s = rng.choice(["", "  ", "\t", "    "])
+            elif rng.random() < 0.2:
+                s = s + rng.choice([" ", "  ", "\t"])
+        out.append(s)
+    return "\n".join(out)
